@@ -8,7 +8,12 @@
 //!      on the merged, unresolved document;
 //!   O  valid-by-construction schemas (confirmed by `ts.valid`) must get no diagnostic; single-fault
 //!      mutations labelled by rule (confirmed by `ts.rules`) must get ≥ 1 diagnostic of a kind that
-//!      belongs to the rule (DESIGN.md Appendix C).
+//!      belongs to the rule (DESIGN.md Appendix C); since fix 8cdbacf also the name-uniqueness rules
+//!      (`unique-type-names`: cross-kind duplicates, user types named like built-in scalars;
+//!      `unique-directive-names`: a user directive defined twice — also across files), and
+//!      "valid-redeclare": a spec-valid schema plus VERBATIM re-declarations of built-in directives (the
+//!      specification's only complaint is `unique-directive-names`) must get no diagnostic — re-declaring a
+//!      built-in directive is allowed.
 #[path = "c05/genx.rs"]
 mod genx;
 #[path = "c05/graphx.rs"]
@@ -185,7 +190,7 @@ fn model_keys(errs: &Sexp) -> Vec<String> {
 #[derive(Clone, Debug)]
 struct Case {
     files: Vec<String>,
-    /// "valid" | "mutation" | "junk" | "pair"
+    /// "valid" | "valid-redeclare" | "mutation" | "junk" | "pair"
     mode: String,
     rule: Option<String>,
     class: Option<String>,
@@ -478,6 +483,30 @@ impl<'a> Ctx<'a> {
                         }
                     }
                 }
+                "valid-redeclare" => {
+                    // valid apart from verbatim re-declarations of built-in directives: the specification (which
+                    // demands ALL directive names distinct) objects to exactly that; the code allows it
+                    if slot.1.is_some() && rules == vec!["unique-directive-names".to_string()] {
+                        if record {
+                            self.rep.o_cases += 1;
+                            self.rep.count("O:valid-redeclare-confirmed");
+                            let mut fs = case.features.clone();
+                            fs.sort();
+                            self.rep.nontrivial(&format!("redeclare:{}", fs.join(",")));
+                        }
+                        if !real.diags.is_empty() {
+                            let d = &real.diags[0];
+                            let class = real.resolved.as_ref().map(|doc| class_at(doc, d.line, d.col, d.file)).unwrap_or_default();
+                            fails.push(Fail {
+                                stream: "O",
+                                signature: format!("complete-redeclare:{}@{}", d.kind, class),
+                                what: format!("a valid schema that re-declares built-in directives verbatim gets {} diagnostic(s); first: {} at {}:{} (file {}): {}", real.diags.len(), d.kind, d.line, d.col, d.file, d.message),
+                            });
+                        }
+                    } else if record {
+                        self.rep.count(&format!("valid-redeclare-not-confirmed-by-spec:{}", rules.join("+")));
+                    }
+                }
                 "mutation" => {
                     let rule = case.rule.clone().unwrap_or_default();
                     let class = case.class.clone().unwrap_or_default();
@@ -724,6 +753,35 @@ fn corpus() -> Vec<Case> {
         // different kinds, same name: passes the resolver, reaches the checker with two definitions of A
         Case { files: vec!["type A { a: Int }\ninterface A { b: Int }\nunion U = A\ntype Query implements A { a: A b: Int }\n".into()], mode: "junk".into(), rule: None, class: None, features: vec!["corpus".into()] },
         Case { files: vec!["directive @d on OBJECT\ndirective @d(x: Int @d) on ARGUMENT_DEFINITION | OBJECT\ntype Query @d { a: Int }\n".into()], mode: "junk".into(), rule: None, class: None, features: vec!["corpus".into()] },
+        // fix 8cdbacf: repeated names are reported (they were silently shadowed)
+        m("type A { a: Int }\ninput A { b: Int }\ntype Query { a: Int }\n", "unique-type-names", "cross-kind:object+input"),
+        m("scalar A\ntype A { f: B }\nscalar B\ninput I { x: A }\ntype Query { a: Int }\n", "unique-type-names", "cross-kind:scalar+object"),
+        m("enum String { A }\ntype Query { a: Int }\n", "unique-type-names", "builtin-scalar-name:enum"),
+        m("input Int { x: String }\ntype Query { a: String }\n", "unique-type-names", "builtin-scalar-name:input"),
+        m("directive @d on SCALAR\ndirective @d on OBJECT\nscalar X @d\ntype Query { x: X }\n", "unique-directive-names", "changed-copy"),
+        m("directive @d on OBJECT\ndirective @d on SCALAR\nscalar X @d\ntype Query { x: X }\n", "unique-directive-names", "changed-copy"),
+        Case {
+            files: vec!["directive @d on SCALAR\ntype Query { x: Int }\n".into(), "directive @d on SCALAR\nscalar X @d\n".into()],
+            mode: "mutation".into(),
+            rule: Some("unique-directive-names".into()),
+            class: Some("verbatim-copy".into()),
+            features: vec!["corpus".into(), "files:2".into()],
+        },
+        Case {
+            files: vec!["type A { a: Int }\ntype Query { a: A }\n".into(), "union A = Query\n".into()],
+            mode: "mutation".into(),
+            rule: Some("unique-type-names".into()),
+            class: Some("cross-kind:object+union".into()),
+            features: vec!["corpus".into(), "files:2".into()],
+        },
+        // … and re-declaring a built-in directive stays allowed
+        Case {
+            files: vec!["directive @deprecated(reason: String = \"No longer supported\") on FIELD_DEFINITION | ARGUMENT_DEFINITION | INPUT_FIELD_DEFINITION | ENUM_VALUE\ndirective @skip(if: Boolean!) on FIELD | FRAGMENT_SPREAD | INLINE_FRAGMENT\ntype Query { a: Int @deprecated }\n".into()],
+            mode: "valid-redeclare".into(),
+            rule: None,
+            class: None,
+            features: vec!["corpus".into()],
+        },
     ]
 }
 
@@ -798,6 +856,33 @@ fn main() {
         let case = Case { files, mode: "valid".into(), rule: None, class: None, features: features.into_iter().collect() };
         if k < 2 {
             ctx.rep.sample(json!({"mode": "valid", "files": case.files}));
+        }
+        batch.push(case);
+        if batch.len() >= 100 {
+            ctx.run(&batch);
+            batch.clear();
+        }
+    }
+    ctx.run(&batch);
+    batch.clear();
+
+    // ---- valid + verbatim re-declarations of built-in directives (allowed) --------------------------------
+    let n_redeclare = args.budget(120, 1500) * scale;
+    for k in 0..n_redeclare {
+        let (doc, mut features) = gen_valid(&mut rng, true);
+        let mut items = doc.items.clone();
+        let names = redeclare_builtin_directives(&mut rng, &mut items);
+        for n in &names {
+            features.insert(format!("redeclared:@{n}"));
+        }
+        let files = render_files(&mut rng, &TsDoc { items }, &mut features);
+        ctx.rep.count("valid-redeclare");
+        for n in &names {
+            ctx.rep.count(&format!("feature:redeclared:@{n}"));
+        }
+        let case = Case { files, mode: "valid-redeclare".into(), rule: None, class: None, features: features.into_iter().collect() };
+        if k < 1 {
+            ctx.rep.sample(json!({"mode": "valid-redeclare", "files": case.files}));
         }
         batch.push(case);
         if batch.len() >= 100 {
